@@ -39,7 +39,7 @@ def histogram(repo, chk, oid):
         slot = term_of(fn, inc.target.slice, inline=True)
         v = lp.target.id
         by_value = it == ('name', a) and slot == ('name', v)                                                        # for val in a: container[val] += 1
-        by_index = it in (E(f'range(len({a}))'), E(f'numba.prange(len({a}))'), E(f'range(0, len({a}))')) and slot == E(f'{a}[{v}]')    # for i in range(len(a)): container[a[i]] += 1
+        by_index = it in (E(f'range(len({a}))'), E(f'numba.prange(len({a}))'), E(f'range(0, len({a}))'), E(f'range({a}.size)'), E(f'range({a}.shape[0])'), E(f'numba.prange({a}.size)'), E(f'range(0, {a}.size)')) and slot == E(f'{a}[{v}]')    # for i in range(len(a)): container[a[i]] += 1
         ok = (by_value or by_index) and isinstance(inc.op, ast.Add) and isinstance(inc.value, ast.Constant) and inc.value.value == 1 \
             and not any(isinstance(x, (ast.If, ast.Continue, ast.Break)) for x in ast.walk(lp))
     chk.expect(ok, oid + 'b', 'R9', fn.site(incs[0]) if incs else fn.site(), ast.unparse(loops[0]).replace('\n', ' ')[:100] if loops else 'for val in a: container[val] += 1', 'every element increments the slot of its own code by 1',
@@ -53,8 +53,10 @@ def histogram(repo, chk, oid):
             return t
         v, c = [strip(term_of(fn, x, inline=True)) for x in rets[0].value.elts]
         P = lambda src: term_of(fn, ast.parse(src, mode='eval').body, inline=True)
-        vals = P(f'np.nonzero({cont})[0]')
-        okr = v == vals and c == ('sub', P(cont), vals)
+        for vsrc in (f'np.nonzero({cont})[0]', f'np.flatnonzero({cont})', f'np.where({cont} != 0)[0]', f'np.where({cont} > 0)[0]', f'np.where({cont})[0]'):
+            vals = P(vsrc)
+            if v == vals and c == ('sub', P(cont), vals):
+                okr = True
     if not okr and len(rets) == 1 and isinstance(rets[0].value, ast.Tuple) and len(rets[0].value.elts) == 2:
         verdict = _gather_loop(fn, m, cont, rets[0])
         if verdict == 'ok':
@@ -66,7 +68,46 @@ def histogram(repo, chk, oid):
                'numba_unique must return (np.nonzero(container)[0], container[those slots]) - values are the slot indices, counts the slot contents, in the same order')
 
 
-def _gather_loop(fn, m, cont, ret):
+def _enumerate_form(fn, m, cont):
+    """`for i in range(<number of slots of cont>): .. cont[i] ..`  rewritten as  `for i, __n in enumerate(cont): .. __n ..`  (a copy of the function)"""
+    import copy
+    from ..model import Func
+    node = copy.deepcopy(fn.node)
+    size_srcs = {f'len({cont})', f'{cont}.size', f'{cont}.shape[0]'}
+    for n in ast.walk(node):
+        if isinstance(n, ast.Assign) and len(n.targets) == 1 and isinstance(n.targets[0], ast.Name) and n.targets[0].id == cont and isinstance(n.value, ast.Call) and n.value.args:
+            size_srcs.add(ast.unparse(n.value.args[0]))
+    changed = False
+
+    class _R(ast.NodeTransformer):
+        def __init__(self, i):
+            self.i = i
+
+        def visit_Subscript(self, x):
+            if isinstance(x.value, ast.Name) and x.value.id == cont and isinstance(x.slice, ast.Name) and x.slice.id == self.i and isinstance(x.ctx, ast.Load):
+                return ast.copy_location(ast.Name('__n', ast.Load()), x)
+            return self.generic_visit(x)
+    for lp in ast.walk(node):
+        if isinstance(lp, ast.For) and isinstance(lp.target, ast.Name) and isinstance(lp.iter, ast.Call) and isinstance(lp.iter.func, ast.Name) and lp.iter.func.id == 'range' and len(lp.iter.args) == 1 \
+                and ast.unparse(lp.iter.args[0]) in size_srcs:
+            i = lp.target.id
+            lp.body = [_R(i).visit(b) for b in lp.body]
+            lp.target = ast.Tuple([ast.Name(i, ast.Store()), ast.Name('__n', ast.Store())], ast.Store())
+            lp.iter = ast.Call(ast.Name('enumerate', ast.Load()), [ast.Name(cont, ast.Load())], [])
+            changed = True
+    if not changed:
+        return None
+    ast.fix_missing_locations(node)
+    return Func(fn.module, fn.qualname, node, fn.cls, fn.outer)
+
+
+def _gather_loop(fn, m, cont, ret, _again=True):
+    if _again:
+        alt = _enumerate_form(fn, m, cont)
+        if alt is not None:
+            rets = [r for r in ast.walk(alt.node) if isinstance(r, ast.Return)]
+            if len(rets) == 1:
+                return _gather_loop(alt, m, cont, rets[0], False)
     """'ok' when the returned pair (V, C) is filled by   p = 0; for slot, n in enumerate(container): if n != 0: V[p] = slot; C[p] = n; p += 1
     with V, C allocated with one entry per non-empty slot; 'bad' when such a loop exists but stores something else; 'unsure' otherwise"""
     def base(e):
@@ -78,6 +119,7 @@ def _gather_loop(fn, m, cont, ret):
         return 'unsure'
     loops = [lp for lp in own_nodes(fn.node) if isinstance(lp, ast.For) and isinstance(lp.iter, ast.Call) and isinstance(lp.iter.func, ast.Name) and lp.iter.func.id == 'enumerate' and len(lp.iter.args) == 1
              and isinstance(lp.iter.args[0], ast.Name) and lp.iter.args[0].id == cont and isinstance(lp.target, ast.Tuple) and len(lp.target.elts) == 2 and all(isinstance(x, ast.Name) for x in lp.target.elts)]
+    loops = [lp for lp in loops if any(isinstance(x, ast.Subscript) and isinstance(x.ctx, ast.Store) and isinstance(x.value, ast.Name) and x.value.id in (V, C) for x in ast.walk(lp))] or loops
     if len(loops) != 1:
         return 'unsure'
     lp = loops[0]
@@ -119,6 +161,16 @@ def _gather_loop(fn, m, cont, ret):
         return 'ok'
     # counted by a loop: k = 0; for c in container: if c != 0: k += 1
     cnt = [lp2 for lp2 in own_nodes(fn.node) if isinstance(lp2, ast.For) and isinstance(lp2.iter, ast.Name) and lp2.iter.id == cont and isinstance(lp2.target, ast.Name)]
+    # (the enumerate form of a counting loop: the count is the second target)
+    import copy as _copy
+    for lp2 in own_nodes(fn.node):
+        if isinstance(lp2, ast.For) and isinstance(lp2.iter, ast.Call) and isinstance(lp2.iter.func, ast.Name) and lp2.iter.func.id == 'enumerate' and len(lp2.iter.args) == 1 and isinstance(lp2.iter.args[0], ast.Name) \
+                and lp2.iter.args[0].id == cont and isinstance(lp2.target, ast.Tuple) and len(lp2.target.elts) == 2 and all(isinstance(x, ast.Name) for x in lp2.target.elts) \
+                and not any(isinstance(x, ast.Name) and x.id == lp2.target.elts[0].id for b in lp2.body for x in ast.walk(b)):
+            c2 = _copy.copy(lp2)
+            c2.target = lp2.target.elts[1]
+            c2.iter = lp2.iter.args[0]
+            cnt.append(c2)
     for lp2 in cnt:
         b2 = [b for b in lp2.body if not isinstance(b, ast.Pass)]
         if len(b2) == 1 and isinstance(b2[0], ast.If) and not b2[0].orelse and len(b2[0].body) == 1 and isinstance(b2[0].body[0], ast.AugAssign) and isinstance(b2[0].body[0].target, ast.Name) and b2[0].body[0].target.id == sz \
@@ -498,7 +550,8 @@ def code_uses(repo, chk, oid):
                     elif fname == 'numba_unique' and d in ('numpy.max',):
                         pp = par.get(p)
                         # histogram sizing np.max(a) + 1: the one whitelisted arithmetic (C01.1 establishes the histogram)
-                        if isinstance(pp, ast.BinOp) and not (isinstance(pp.op, ast.Add) and isinstance(pp.right, ast.Constant) and pp.right.value == 1 and isinstance(par.get(pp), ast.Call) and m.dotted(par.get(pp).func) == 'numpy.zeros'):
+                        if isinstance(pp, ast.BinOp) and not (isinstance(pp.op, ast.Add) and isinstance(pp.right, ast.Constant) and pp.right.value == 1 and isinstance(par.get(pp), ast.Call) and m.dotted(par.get(pp).func) == 'numpy.zeros') \
+                                and not (isinstance(pp.op, ast.Add) and isinstance(pp.right, ast.Constant) and pp.right.value == 1 and _sizes_or_indexes(pp, par, m)):
                             chk.bad(oid, 'use-restriction', site, ast.unparse(pp)[:100], 'arithmetic on the largest code outside the histogram sizing max(a)+1')
                     elif d in ('numpy.min', 'numpy.max', 'numpy.argmax', 'numpy.argmin', 'numpy.sort', 'numpy.argsort', 'numpy.searchsorted', 'numpy.bincount', 'numpy.mean', 'numpy.median', 'numpy.diff', 'numpy.cumsum'):
                         if d in ('numpy.mean', 'numpy.median', 'numpy.diff', 'numpy.cumsum'):
@@ -538,6 +591,9 @@ def _sizes_or_indexes(node, par, m, depth=0):
                 cur, p = p, par.get(p)
                 continue
             if any(k.value is cur and k.arg in ('minlength', 'shape', 'size') for k in p.keywords):
+                return True
+            if d in ('range', 'numba.prange') and p.args and p.args[-1 if len(p.args) < 3 else 1] is cur:
+                # range(<number of slots>): the loop visits the slots of the table, the size is used as a size
                 return True
             return False
         if isinstance(p, ast.Tuple):
@@ -652,3 +708,38 @@ def _exact_forms(E):
                   E(f'numpy.count_nonzero({a} != {b}) == 0'), E(f'numpy.count_nonzero({d}) == 0'), E(f'numpy.sum({a} != {b}) == 0'), E(f'numpy.sum(numpy.abs({d})) == 0'), E(f'numpy.max(numpy.abs({d})) == 0'),
                   E(f'numpy.sum({d} ** 2) == 0'), E(f'numpy.sum({d} * {d}) == 0'), E(f'not numpy.any({d})'), E(f'numpy.sum({a} == {b}) == len({a})'), E(f'numpy.count_nonzero({a} == {b}) == len({a})')]
     return exact
+
+
+# ---------------------------------------------------------------------------
+# compile options of the kernels
+# ---------------------------------------------------------------------------
+NARROW_NUMBA = {'float32', 'float16', 'int8', 'int16', 'uint8', 'uint16', 'f4', 'f2', 'i1', 'i2', 'u1', 'u2'}
+
+
+def compile_options(repo, chk, oid):
+    """The kernels accumulate their sums in float64 locals (a Python float literal initialises them) and round once, on return.  `locals={name: type}`
+    in the @njit options re-types a local: pinning an accumulator to a single-precision (or a narrow integer) type rounds / wraps at EVERY addition,
+    so the error grows with the number of terms instead of staying at one rounding of the result."""
+    n = 0
+    for name in ('numba_unique', 'compute_conditional_entropy', 'compute_entropies', 'mutual_info_estimator_numba', 'stratified_subsampling'):
+        fn = repo.mod(MI).funcs.get(name)
+        if fn is None:
+            continue
+        n += 1
+        for dname, kw in fn.decorator_info():
+            loc = kw.get('locals')
+            if loc is None:
+                continue
+            if not isinstance(loc, ast.Dict):
+                chk.unsure(oid, 'R8', fn.site(), f'@njit(locals={ast.unparse(loc)[:60]})', 'the kernel re-types locals through a table that is not written out')
+                continue
+            for k, v in zip(loc.keys, loc.values):
+                ty = ast.unparse(v).split('.')[-1]
+                var = k.value if isinstance(k, ast.Constant) else ast.unparse(k)
+                updated = any(isinstance(x, ast.AugAssign) and isinstance(x.target, ast.Name) and x.target.id == var for x in ast.walk(fn.node))
+                if ty in NARROW_NUMBA and updated:
+                    chk.bad(oid, 'R8', fn.site(), f'@njit(locals={{{var!r}: {ast.unparse(v)}}})', f'the accumulator {var} of {name} is pinned to {ty}: every `{var} +=` rounds (or wraps) to that type, so the error of the sum grows with '
+                            'the number of strata / classes instead of being one single-precision rounding of the result')
+                elif ty in NARROW_NUMBA:
+                    chk.unsure(oid, 'R8', fn.site(), f'@njit(locals={{{var!r}: {ast.unparse(v)}}})', f'the local {var} of {name} is pinned to {ty}; whether a value it has to hold can exceed that type is not decided')
+    chk.ok(oid, 'R8', 'outrank/algorithms/feature_ranking/ranking_mi_numba.py', '@njit(...) options of the kernels', f'{n} kernels: no accumulator is re-typed to a narrower type', inspected=n)
